@@ -88,6 +88,16 @@ Fixpoint hash_partition_fuel (fuel : nat) (p : hashp) (m : msg) (n r : Z) : opti
     end
   end.
 
+(* The calls Partition() makes on its hash.Hash32, in order: Reset then Write of the encoded key for EVERY keyed
+   message (also an empty non-nil key); none for a keyless message or a key that cannot be encoded. *)
+Inductive hcall := HReset | HWrite (b : list Z).
+Definition hasher_calls (m : msg) : list hcall :=
+  match m_key m with KBytes b => [HReset; HWrite b] | _ => [] end.
+(* a hasher as a state machine: the bytes written since the last Reset (Sum32 is a function of them) *)
+Definition hasher_step (st : list Z) (c : hcall) : list Z :=
+  match c with HReset => [] | HWrite b => st ++ b end.
+Definition hasher_run (st : list Z) (cs : list hcall) : list Z := fold_left hasher_step cs st.
+
 (* ---------- constructors and options ---------- *)
 Definition new_hash : hashp := HashP FbRandom fnv_hasher false.            (* NewHashPartitioner *)
 Definition new_reference_hash : hashp := HashP FbRandom fnv_hasher true.   (* NewReferenceHashPartitioner *)
